@@ -240,27 +240,16 @@ def prefix_collision(binpath, res, seed):
     rng = common.rng_for(seed, PROP, 808)
     W = scen.World(binpath)
     ka, kb = rng.sample(["ed2", "ed3", "ed5", "edp1"], 2)
-
-    def template(k):
-        p = W.pub(k)
-        d = {"keytype": p["keytype"], "scheme": p["scheme"], "keyval": {"public": p["keyval"]["public"]}, "keyid_hash_algorithms": ["sha256", "@TAG@"]}
-        return jsongen.olpc_canon(d)
-    ta, tb = template(ka), template(kb)
-    seen = {}
-    pair = None
-    for i in range(400000):
-        ia = hashlib.sha256(ta.replace("@TAG@", f"a{i}").encode()).hexdigest()
-        seen[ia[:8]] = (i, ia)
-        ib = hashlib.sha256(tb.replace("@TAG@", f"b{i}").encode()).hexdigest()
-        if ib[:8] in seen:
-            pair = (seen[ib[:8]], (i, ib))
-            break
-    if pair is None:
+    found = scen.colliding_descriptions(W, ka, kb)
+    if found is None:
         res.inconclusive.append("no identifier-prefix collision found in the search budget")
         return
-    (i_a, id_a), (i_b, id_b) = pair
-    pub_a = dict(W.pub(ka), keyid=id_a, keyid_hash_algorithms=["sha256", f"a{i_a}"])
-    pub_b = dict(W.pub(kb), keyid=id_b, keyid_hash_algorithms=["sha256", f"b{i_b}"])
+    pub_a, id_a, pub_b, id_b = found
+    return _prefix_collision_cases(binpath, res, W, ka, kb, pub_a, id_a, pub_b, id_b)
+
+
+def _prefix_collision_cases(binpath, res, W, ka, kb, pub_a, id_a, pub_b, id_b):
+    import pipeline
     steps = [scen.mk_step("build", 1, [id_a], [], [["ALLOW", "*"]], [["ALLOW", "*"]]),
              scen.mk_step("test", 1, [id_b], [], [["ALLOW", "*"]], [["ALLOW", "*"]])]
     layout = scen.mk_layout(W, [], steps, [], keys={id_a: pub_a, id_b: pub_b})
@@ -293,7 +282,44 @@ def prefix_collision(binpath, res, seed):
                         f"({id_a[:12]}.., {id_b[:12]}..) share the prefix the link file is named after", c, o, "reject")
         if not ok and m["expect"] == "accept":
             res.inconclusive.append(f"prefix-collision control rejected: {o['runs'][0].get('e')}")
-    res.extras["identifier_prefix_collision"] = {"prefix": pfx, "searched": i_b + 1}
+    res.extras["identifier_prefix_collision"] = {"prefix": pfx}
+
+
+def twin_rewritten(binpath, res, seed):
+    """a link is signed, then replaced by its twin: another document that differs only in where a quote / backslash stands
+    (inside a member name or a string, against the same characters as structure).  The signature was not made over the
+    twin: the evidence was altered after signing and counts for nothing."""
+    import pipeline
+    rng = common.rng_for(seed, PROP, 809)
+    W = scen.World(binpath)
+    k = rng.choice(["ed2", "ed3", "ec-b"])
+    layout = scen.mk_layout(W, [k], [scen.mk_step("twin", 1, [W.kid(k)], [], [["ALLOW", "*"]], [["ALLOW", "*"]])], [])
+    pairs = scen.twin_links("twin")
+    reqs = [(layout, ["ed0"], "new")] + [(a, [k], "new") for a, b in pairs] + [(b, [k], "new") for a, b in pairs]
+    wires = scen.sign_all(binpath, reqs, nproc=1)
+    keys = [[W.kid("ed0"), W.pub("ed0")]]
+    cases = []
+    for i, (a, b) in enumerate(pairs):
+        wa, wb = wires[1 + i], wires[1 + len(pairs) + i]
+        fn = f"twin.{W.pfx(k)}.link"
+        cases.append(scen.verify_case(wires[0], keys, {fn: scen.dumps(wa)}, meta={"kind": "twin:genuine", "expect": "accept"}))
+        cases.append(scen.verify_case(wires[0], keys, {fn: scen.dumps({"signatures": wa["signatures"], "signed": wb["signed"]})},
+                                      meta={"kind": "twin:rewritten_after_signing", "expect": "reject"}))
+        cases.append(scen.verify_case(wires[0], keys, {fn: scen.dumps({"signatures": wb["signatures"], "signed": wa["signed"]})},
+                                      meta={"kind": "twin:rewritten_after_signing", "expect": "reject"}))
+    for c, o in zip(cases, common.run_batch(binpath, cases)):
+        if scen.harness_failed(o):
+            res.inconclusive.append(f"executor failure: {str(o)[:200]}")
+            continue
+        ok = o["runs"][0]["v"] == "ok"
+        m = c["meta"]
+        res.note([m["kind"], sorted(c["files"].items())], True, cls=[f"state:{m['kind']}", "observed:" + ("accept" if ok else "reject")])
+        if ok and m["expect"] == "reject":
+            res.violate("accept-undercounted:link-rewritten-into-its-twin-after-signing",
+                        "a link replaced after signing by a document that differs in where a quote / backslash stands still counted for its step",
+                        c, o, "reject")
+        if not ok and m["expect"] == "accept":
+            res.inconclusive.append(f"twin control rejected: {o['runs'][0].get('e')}")
 
 
 def main(ctx):
@@ -302,6 +328,7 @@ def main(ctx):
     for p in common.pmap(shard, [(ctx.bin, ctx.seed, s, n) for s in range(common.NPROC)]):
         res.merge(p)
     prefix_collision(ctx.bin, res, ctx.seed)
+    twin_rewritten(ctx.bin, res, ctx.seed)
     return common.finish(
         PROP, ctx.tier, ctx.seed, res, t0=ctx.t0,
         rule="layouts with 1-3 steps, thresholds 0-3, per-step authorised subsets of a 6-key pool, key tables that may "
@@ -311,7 +338,7 @@ def main(ctx):
              "directory not empty; distinct by SHA-256 of (layout, directory)",
         assumptions=["ground truth of who validly signed what is by construction"],
         required=["positive_control_accepted", "expect:reject", "observed:reject", "state:valid(unauth)", "state:misfiled",
-                  "state:flipped", "state:edited", "state:double", "state:cosigned_broken_own", "state:entry_under_unknown_scheme_key", "state:odd_file_name", "state:prefix_collision:control", "state:prefix_collision:link_by_the_other_steps_functionary",
+                  "state:flipped", "state:edited", "state:double", "state:cosigned_broken_own", "state:entry_under_unknown_scheme_key", "state:odd_file_name", "state:prefix_collision:control", "state:twin:genuine", "state:twin:rewritten_after_signing", "state:prefix_collision:link_by_the_other_steps_functionary",
                   "decided_by_authorisation_rule", "threshold:0",
                   "threshold:2", "threshold:3"],
         min_evals=500)
